@@ -168,6 +168,50 @@ def run_enum(prop, sc, tier, shard, nshards, stats):
                                  "summary_only": True})
 
 
+def run_fuzz(prop, sc, tier, shard, seed, stats):
+    """Coverage-guided campaign (atheris/libFuzzer) in a subprocess with a fresh corpus directory."""
+    import random
+    import shutil
+    import subprocess
+    target_prop, runs_pair = sc.fuzz
+    runs = runs_pair[sc.tier_index(tier)]
+    work = os.path.join(core.VERIF, ".fuzz", "%s-%s-%d-%d" % (prop, sc.name, shard, os.getpid()))
+    shutil.rmtree(work, ignore_errors=True)
+    os.makedirs(os.path.join(work, "corpus"))
+    if shard % 2:  # odd shards start from a small random valid corpus, even shards from the empty corpus
+        rng = random.Random(seed)
+        for i in range(48):
+            with open(os.path.join(work, "corpus", "seed%02d" % i), "wb") as handle:
+                handle.write(bytes(rng.randrange(256) for _ in range(rng.randrange(8, 96))))
+    stats_path = os.path.join(work, "stats.json")
+    env = dict(os.environ, PYTHONHASHSEED="0", PYTHONPATH=core.VERIF)
+    cmd = [sys.executable, "-m", "pbt.fuzz.target", target_prop, stats_path, str(runs),
+           "-seed=%d" % (seed % (2 ** 31 - 1) + 1), "-max_len=256", "-artifact_prefix=" + work + "/",
+           os.path.join(work, "corpus")]
+    try:
+        done = subprocess.run(cmd, cwd=core.VERIF, env=env, capture_output=True, text=True,
+                              timeout=max(600, runs // 100))
+        data = json.load(open(stats_path)) if os.path.exists(stats_path) else None
+        if data is None:
+            stats.errors.append("fuzz target %s produced no statistics (exit %d): %s"
+                                % (target_prop, done.returncode, (done.stdout + done.stderr)[-400:]))
+            return
+        stats.evaluations += data["evaluations"]
+        stats.classes.update(data["classes"])
+        stats.classes["fuzz_execs"] += data["execs"]
+        stats.classes["fuzz_corpus:" + ("seeded" if shard % 2 else "empty")] += 1
+        stats.nontrivial |= {("fuzz-%d-%d" % (shard, i)).encode() for i in range(data["nontrivial"])}
+        stats.samples += data["samples"]
+        if data["violation"]:
+            stats.violations.append({"subcheck": sc.name, "replay": data["violation"]["replay"],
+                                     "detail": "[fuzz] " + data["violation"]["detail"]})
+        elif done.returncode != 0:
+            stats.errors.append("fuzz target %s exited %d without a recorded violation: %s"
+                                % (target_prop, done.returncode, (done.stdout + done.stderr)[-400:]))
+    finally:
+        shutil.rmtree(work, ignore_errors=True)
+
+
 def run_task(task):
     prop, sub_idx, shard, nshards, tier, base_seed = task
     stats = ShardStats()
@@ -175,7 +219,9 @@ def run_task(task):
     try:
         core.import_dsw()
         sc = load(prop).SUBCHECKS[sub_idx]
-        if sc.enum is not None:
+        if sc.fuzz is not None:
+            run_fuzz(prop, sc, tier, shard, core.mix32(base_seed, prop, sc.name, shard), stats)
+        elif sc.enum is not None:
             run_enum(prop, sc, tier, shard, nshards, stats)
         else:
             examples = sc.examples[sc.tier_index(tier)]
@@ -327,7 +373,8 @@ def main(argv):
         entry = {"evaluations": m["evaluations"], "distinct_nontrivial": len(m["nontrivial"]),
                  "classes": dict(sorted(m["classes"].items())), "excluded": dict(m["discards"]),
                  "known_finding_observations": dict(m["known"]), "rule": sc.rule,
-                 "kind": "enumeration" if sc.enum is not None else "hypothesis",
+                 "kind": "coverage-guided fuzzing (atheris)" if sc.fuzz is not None else (
+                     "enumeration" if sc.enum is not None else "hypothesis"),
                  "exhaustive": sc.enum is not None}
         if sc.enum is not None and sc.exhaustive_space:
             entry["space"] = sc.exhaustive_space
